@@ -392,6 +392,27 @@ pub fn run(ctx: &Ctx) -> i32 {
     rng.shuffle(&mut jobs);
     fw::par_items(&jobs, |i, job| run_job(ctx, &sh, i as u64, job));
 
+    // interleaving slice: one thread, single-line builds in random order, so that builds for the reduced
+    // core (`.device ATtiny20`) and builds without a device follow each other directly - a device-dependent
+    // decision remembered from the previous build would show here
+    {
+        let mut r = Rng::for_case(ctx.seed, 0xC01_C, 0);
+        let rc: Vec<usize> = (0..forms.len()).filter(|i| forms[*i].core == Core::Reduced).collect();
+        let full: Vec<usize> = (0..forms.len()).filter(|i| forms[*i].core == Core::Full).collect();
+        for k in 0..3000u64 {
+            let fi = match k % 4 {
+                0 => *r.pick(&rc),
+                1 => *r.pick(&full),
+                _ => r.usize(forms.len()),
+            };
+            let form = &forms[fi];
+            let vals = form.tuple_at(r.below(form.space()));
+            let text = line_text(form, &vals, &mut r);
+            ctx.eval(1);
+            check_line(ctx, form, &vals, &text);
+        }
+        ctx.put("interleaving_slice_builds", json!(3000));
+    }
     let distinct_first: u64 = sh.first_words.iter().map(|w| w.load(Ordering::Relaxed).count_ones() as u64).sum();
     ctx.distinct_extra.store(distinct_first, Ordering::Relaxed);
     ctx.exhaustive.store(true, Ordering::Relaxed);
@@ -404,7 +425,7 @@ pub fn run(ctx: &Ctx) -> i32 {
     crate::refmodel::llvm::crosscheck(ctx, ctx.tier == Tier::Thorough);
     fw::finish(
         ctx,
-        "every ISA-legal operand tuple of every supported instruction form is assembled (batches of 4096 lines, random radix/case/blank spelling) and compared byte-for-byte with the reference encoder and re-decoded by an independent decoder; plus a high-address slice (48 tuples per form behind .org 0x12345) and an operand-path slice (8 tuples per form written through .def aliases, .equ/.set symbols and macro arguments); `exhaustive` refers to the spaces listed under complete_spaces; distinct_nontrivial = distinct first instruction words emitted (bitmap over 65536)",
+        "every ISA-legal operand tuple of every supported instruction form is assembled (batches of 4096 lines, random radix/case/blank spelling) and compared byte-for-byte with the reference encoder and re-decoded by an independent decoder; plus a high-address slice (48 tuples per form behind .org 0x12345) an interleaving slice (3000 single-line builds on one thread alternating between the reduced core, no device and random forms) and an operand-path slice (8 tuples per form written through .def aliases, .equ/.set symbols and macro arguments); `exhaustive` refers to the spaces listed under complete_spaces; distinct_nontrivial = distinct first instruction words emitted (bitmap over 65536)",
         &[
             "refmodel/isa.rs is a faithful transcription of the AVR Instruction Set Manual (self-checked decode∘encode, cross-checked against llvm-mc-14 where available)",
             "relative operands are written as pc±k at word address 4096; label-based targets belong to C03",
